@@ -12,7 +12,7 @@ let dispatch kind args =
   | "foldbin" | "foldun" | "litfalsy" | "optexpr" -> C01.run kind args
   | "wffn" -> C05.run kind args
   | "callbind" -> C14.run kind args
-  | "unpack" | "shiftlines" | "fileof" | "addlines" -> C16.run kind args
+  | "unpack" | "shiftlines" | "fileof" | "addlines" | "sourcepos" -> C16.run kind args
   | "jsonvalid" | "jsonstr" -> C17.run kind args
   | "calls19" | "size19" -> C19.run kind args
   | "shareok" -> C08.run kind args
